@@ -60,6 +60,108 @@ def user_payload(e):
     return False, None
 
 
+def payload_of(e):
+    """Payload of the user exception if e is it or wraps it (__cause__ / __context__ chain), else ANY ('*')."""
+    seen = 0
+    x = e
+    while x is not None and seen < 5:
+        mine, v = user_payload(x)
+        if mine:
+            return v
+        x = x.__cause__ or x.__context__
+        seen += 1
+    return '*'
+
+
+# ---- statefulness of the user functions is an enumerated axis too -------------------------------------------
+# 'pure'      : the functions are pure
+# 'fail-once' : a function raises only the FIRST time it meets a given offending value and succeeds afterwards
+#               (a transient failure); a retry of the same call therefore does not fail again
+# 'counter'   : the results carry the ordinal of the call (an iterator-fed / counting function), so an extra,
+#               missing or reordered call changes every later value
+# In every mode all calls of the user functions handed to petl are LOGGED.  The model is: each user function is
+# called exactly once per (row, cell) it applies to per pass, rows in order and cells left to right, and the
+# policy applies to the outcome of that one call.  The model therefore evaluates the very same functions in that
+# order inside its own private context and yields the expected call log along with the expected rows.
+STATES = ('pure', 'fail-once', 'counter')
+
+
+class Ctx(object):
+    def __init__(self, state='pure'):
+        if state not in STATES:
+            raise ValueError(state)
+        self.state = state
+        self.failed = set()
+        self.log = []
+        self.depth = 0
+        self.ncalls = 0
+
+
+_CTX = Ctx()
+
+
+def swap_ctx(ctx):
+    """Install ctx as the context the user functions act on; returns the previous one."""
+    global _CTX
+    old = _CTX
+    _CTX = ctx
+    return old
+
+
+def _key(a):
+    if isinstance(a, tuple):
+        return tuple(a)          # a petl Record / the model's Rec -> plain tuple
+    return a
+
+
+def user(fn):
+    """Decorator of the functions handed to petl: log the call (top level only, not calls between them)."""
+    name = fn.__name__
+
+    def wrapper(*args):
+        ctx = _CTX
+        if ctx.depth == 0:
+            ctx.ncalls += 1
+            ctx.log.append((name,) + tuple(_key(a) for a in args))
+        ctx.depth += 1
+        try:
+            return fn(*args)
+        finally:
+            ctx.depth -= 1
+    wrapper.__name__ = name
+    return wrapper
+
+
+def _fail(v):
+    """The point where a user function chokes on v."""
+    ctx = _CTX
+    if ctx.state == 'fail-once':
+        if v in ctx.failed:
+            return               # met before: this time the function goes on and succeeds
+        ctx.failed.add(v)
+    ctx.log.append(('!raise', v))
+    raise make_exc(v)
+
+
+def _ret(s):
+    if _CTX.state == 'counter':
+        return '%s#%d' % (s, _CTX.ncalls)
+    return s
+
+
+class Rec(tuple):
+    """The model's own record: fields by name, attribute or index; an absent field reads as None."""
+
+    def __getitem__(self, f):
+        idx = f if isinstance(f, int) else HEADER.index(f)
+        return tuple.__getitem__(self, idx) if idx < len(self) else None
+
+    def __getattr__(self, f):
+        if f in HEADER:
+            return self[f]
+        raise AttributeError(f)
+
+
 # StopIteration raised while an ITERATOR's __next__ runs is, by the iterator protocol, the end of that iterator
 # and not a failure (tuple(map(f, row)) just stops); only generators turn it into RuntimeError (PEP 479).
 STOPITERATION_IS_EXHAUSTION = ('rowmap(f -> map object)', 'rowmap(f -> iterator object)')
@@ -136,68 +238,77 @@ def is_bang(v):
     return isinstance(v, str) and v.startswith('!')
 
 
+@user
 def conv(v):
     if is_bang(v):
-        raise make_exc(v)
-    return 'c:%s' % (v,)
+        _fail(v)
+    return _ret('c:%s' % (v,))
 
 
+@user
 def conv2(v):
     if is_bang(v):
-        raise make_exc(v)
-    return 'd:%s' % (v,)
+        _fail(v)
+    return _ret('d:%s' % (v,))
 
 
+@user
 def conv_row(v, row):
     if is_bang(v):
-        raise make_exc(v)
-    return '%s<%s>' % (v, '/'.join(str(x) for x in row))
+        _fail(v)
+    return _ret('%s<%s>' % (v, '/'.join(str(x) for x in row)))
 
 
+@user
 def convs(v):
     """Strict converter: also chokes on the None an absent field reads as."""
     if v is None or is_bang(v):
-        raise make_exc(v)
-    return 's:%s' % (v,)
+        _fail(v)
+    return _ret('s:%s' % (v,))
 
 
-def _convs_row(v, b):
-    if is_bang(v) or b is None:
-        raise make_exc(v)
-    return '%s<%s>' % (v, b)
-
-
+@user
 def convs_row(v, row):
     """pass_row converter that reads field b of the row (None when the row is short)."""
-    return _convs_row(v, row['b'])
+    b = row['b']
+    if is_bang(v) or b is None:
+        _fail(v)
+    return _ret('%s<%s>' % (v, b))
 
 
+@user
 def recfun_sb(rec):
     return convs(rec['b'])
 
 
+@user
 def recfun_sa(rec):
     return convs(rec.a)
 
 
+@user
 def rowmapper_s(rec):
     return [convs(rec['a']), convs(rec.b)]
 
 
+@user
 def rowfun_p(rec):
     return conv(rec['a'])
 
 
+@user
 def rowfun_q(rec):
     return '%s+%s' % (conv2(rec['b']), rec['a'])
 
 
+@user
 def rowmapper(row):
     if is_bang(row[0]):
-        raise make_exc(row[0])
+        _fail(row[0])
     return [conv(row[0]), row[1], 'x']
 
 
+@user
 def rowmapper_natural(row):
     return [int(row[0]), row[1]]
 
@@ -206,20 +317,26 @@ def many_rows(row, m):
     return [(row[0], j, row[1]) for j in range(m)]
 
 
-def rowgenerator(row):
+def _rowgenerator(row):
     b = row[1]
     k = int(b[1:])
     for r in many_rows(row, k):
         yield r
     if b.startswith('!'):
-        raise make_exc(row[0])
+        _fail(row[0])
 
 
+@user
+def rowgenerator(row):
+    return _rowgenerator(row)
+
+
+@user
 def rowlister(row):
     """Not a generator: raises when CALLED, else returns a list."""
     b = row[1]
     if b.startswith('!'):
-        raise make_exc(row[0])
+        _fail(row[0])
     return many_rows(row, int(b[1:]))
 
 
@@ -227,19 +344,23 @@ def rowlister(row):
 # ---- raise, only when petl materialises the row.  The statement makes no difference between a mapper that
 # ---- raises when called and one whose returned row raises while it is read: the row fails either way.
 
+@user
 def lazy_genexpr_mapper(row):
     return (conv(v) for v in row)
 
 
+@user
 def lazy_map_mapper(row):
     return map(conv, row)
 
 
+@user
 def lazy_iter_mapper(row):
     """iter() over a lazily evaluating sequence-less object (neither generator nor map)."""
     return _LazyRow([(conv, v) for v in row])
 
 
+@user
 def lazy_natural_mapper(row):
     return map(int, row)
 
@@ -261,15 +382,14 @@ class _LazyRow(object):
 
 
 def _lazy_cells(cells, failpos, payload):
-    """Generator over cells that raises Boom(payload) instead of delivering the cell at failpos."""
+    """Generator over cells that chokes (payload) instead of delivering the cell at failpos."""
     for p, c in enumerate(cells):
         if p == failpos:
-            raise make_exc(payload)
+            _fail(payload)
         yield c
 
 
-def lazy_rowgenerator(row):
-    """rowmapmany generator that yields LAZY rows; b is 'k<m>' or '!<k><p>'."""
+def _lazy_rowgenerator(row):
     b = row[1]
     k = int(b[1])
     for r in many_rows(row, k):
@@ -278,6 +398,13 @@ def lazy_rowgenerator(row):
         yield _lazy_cells((row[0], k, row[1]), int(b[2]), row[0])
 
 
+@user
+def lazy_rowgenerator(row):
+    """rowmapmany generator that yields LAZY rows; b is 'k<m>' or '!<k><p>'."""
+    return _lazy_rowgenerator(row)
+
+
+@user
 def lazy_rowlister(row):
     """Not a generator: returns a list of lazy rows (map objects), the last one failing for '!' rows."""
     b = row[1]
@@ -292,29 +419,27 @@ def _ident(v):
     return v
 
 
-def _lazy_row_model(fn):
-    """rowmap with a lazy row: the row fails iff materialising it fails; payload = first failing cell."""
-    def model(r):
-        cells = [_try(fn, v) for v in r]
-        fails = [c for c in cells if c[0] == 'fail']
-        if fails:
-            return ([], fails[0][1])
-        return ([[c[1] for c in cells]], NOFAIL)
-    return model
-
-
-def _lazy_many_model(r):
-    b = r[1]
-    k = int(b[1])
-    return (many_rows(r, k), r[0] if b.startswith('!') else NOFAIL)
+def _rows_of(fn, row, many=False):
+    """Row-level model: what ONE call fn(record) contributes - (rows produced before failing, payload | NOFAIL).
+    A returned / yielded row is materialised with tuple(), which is where a lazy row fails."""
+    rows = []
+    try:
+        out = fn(Rec(row))
+        if many:
+            for x in out:
+                rows.append(tuple(x))
+        else:
+            rows.append(tuple(out))
+    except Exception as e:
+        return rows, payload_of(e)
+    return rows, NOFAIL
 
 
 def _try(fn, *args):
     try:
         return ('ok', fn(*args))
     except Exception as e:
-        mine, v = user_payload(e)
-        return ('fail', v if mine else ANY)
+        return ('fail', payload_of(e))
 
 
 def _ok(v):
@@ -386,19 +511,16 @@ FORMS = {
     'fieldmap{p: (a, f), q: (b, g), r: a}': dict(style='num', level='cell', header=('p', 'q', 'r'),
                                                  model=lambda r: [_try(conv, r[0]), _try(conv2, r[1]), _ok(r[0])]),
     'fieldmap{p: rowfun, q: rowfun}': dict(style='num', level='cell', header=('p', 'q'),
-                                           model=lambda r: [_try(conv, r[0]),
-                                                            _try(lambda: '%s+%s' % (conv2(r[1]), r[0]))]),
+                                           model=lambda r: [_try(rowfun_p, Rec(r)), _try(rowfun_q, Rec(r))]),
     'fieldmap{p: "int({a})", q: "{b}"}': dict(style='num', level='cell', header=('p', 'q'),
                                               model=lambda r: [_try(int, r[0]), _ok(r[1])]),
     'fieldmap()[p] = (a, f); [q] = b': dict(style='num', level='cell', header=('p', 'q'),
                                             model=lambda r: [_try(conv, r[0]), _ok(r[1])]),
     # ---- rowmap (row level)
     'rowmap(f)':                   dict(style='num', level='row', header=('x', 'y', 'z'),
-                                        model=lambda r: (([rowmapper(r)], NOFAIL) if not is_bang(r[0])
-                                                         else ([], r[0]))),
+                                        model=lambda r: _rows_of(rowmapper, r)),
     'rowmap(natural)':             dict(style='num', level='row', header=('x', 'y'),
-                                        model=lambda r: (([[int(r[0]), r[1]]], NOFAIL) if not is_bang(r[0])
-                                                         else ([], ANY))),
+                                        model=lambda r: _rows_of(rowmapper_natural, r)),
     # ---- ragged tables: short rows; a mapping / converter that READS an absent field gets None and chokes on it.
     # ---- Which cells fail must not depend on errorvalue.
     'fieldmap{p: (a, f), q: (b, f), r: b} on short rows': dict(
@@ -406,7 +528,7 @@ FORMS = {
         model=lambda r: [_try(convs, g(r, 0)), _try(convs, g(r, 1)), _ok(g(r, 1))]),
     'fieldmap{p: recfun(b), q: recfun(a)} on short rows': dict(
         style='ragged', level='cell', header=('p', 'q'),
-        model=lambda r: [_try(convs, g(r, 1)), _try(convs, g(r, 0))]),
+        model=lambda r: [_try(recfun_sb, Rec(r)), _try(recfun_sa, Rec(r))]),
     'fieldmap{p: "int({b})", q: "{a}"} on short rows': dict(
         style='ragged', level='cell', header=('p', 'q'),
         model=lambda r: [_try(int, g(r, 1)), _ok(g(r, 0))]),
@@ -418,33 +540,29 @@ FORMS = {
         model=lambda r: [_ok(v) if i == 0 else _try(convs, v) for i, v in enumerate(r)]),
     'convert((a, b), f reading row[b], pass_row) on short rows': dict(
         style='ragged', level='cell', header=HEADER,
-        model=lambda r: [_try(_convs_row, v, g(r, 1)) for v in r]),
+        model=lambda r: [_try(convs_row, v, Rec(r)) for v in r]),
     'rowmap(f reading both fields) on short rows': dict(
         style='ragged', level='row', header=('x', 'y'),
-        model=lambda r: (lambda cs: (([[c[1] for c in cs]], NOFAIL) if all(c[0] == 'ok' for c in cs)
-                                     else ([], [c[1] for c in cs if c[0] == 'fail'][0])))(
-            [_try(convs, g(r, 0)), _try(convs, g(r, 1))])),
+        model=lambda r: _rows_of(rowmapper_s, r)),
     # ---- rowmap whose mapper returns a lazy row (fails while petl materialises it)
     'rowmap(f -> generator expression)': dict(style='num', level='row', header=('x', 'y'),
-                                              model=_lazy_row_model(conv)),
+                                              model=lambda r: _rows_of(lazy_genexpr_mapper, r)),
     'rowmap(f -> map object)':     dict(style='num', level='row', header=('x', 'y'),
-                                        model=_lazy_row_model(conv)),
+                                        model=lambda r: _rows_of(lazy_map_mapper, r)),
     'rowmap(f -> iterator object)': dict(style='num', level='row', header=('x', 'y'),
-                                         model=_lazy_row_model(conv)),
+                                         model=lambda r: _rows_of(lazy_iter_mapper, r)),
     'rowmap(f -> map(int, row))':  dict(style='num', level='row', header=('x', 'y'),
-                                        model=_lazy_row_model(int)),
+                                        model=lambda r: _rows_of(lazy_natural_mapper, r)),
     # ---- rowmapmany yielding lazy rows; the failing lazy row is the last one produced for its input row
     'rowmapmany(generator of lazy rows)': dict(style='many-lazy', level='row', header=('x', 'j', 'y'),
-                                               model=_lazy_many_model),
+                                               model=lambda r: _rows_of(lazy_rowgenerator, r, True)),
     'rowmapmany(list of lazy rows)': dict(style='many-lazy', level='row', header=('x', 'j', 'y'),
-                                          model=_lazy_many_model),
+                                          model=lambda r: _rows_of(lazy_rowlister, r, True)),
     # ---- rowmapmany (row level; behaviour vector tables)
     'rowmapmany(generator)':       dict(style='many', level='row', header=('x', 'j', 'y'),
-                                        model=lambda r: (many_rows(r, int(r[1][1:])),
-                                                         r[0] if r[1].startswith('!') else NOFAIL)),
+                                        model=lambda r: _rows_of(rowgenerator, r, True)),
     'rowmapmany(list function)':   dict(style='many-call', level='row', header=('x', 'j', 'y'),
-                                        model=lambda r: (([], r[0]) if r[1].startswith('!')
-                                                         else (many_rows(r, int(r[1][1:])), NOFAIL))),
+                                        model=lambda r: _rows_of(rowlister, r, True)),
 }
 
 
